@@ -113,7 +113,8 @@ static const TypeOps* Lookup(const std::string& tid, JsonOut& o) {
 static void EmitKind(JsonOut& o, const char* key, const std::string& kind, bool bounded, uint64_t limit) {
   o.key(key);
   o.begin_obj();
-  o.kv_str("k", kind);
+  o.kv_str("k", kind == "fdburst" ? "fd" : kind);      // a bursty pipe is still an FdReader
+  if (kind == "fdburst") o.kv_bool("burst", true);
   o.kv_bool("b", bounded);
   o.kv_num("lim", bounded ? static_cast<long long>(limit < 1073741823ull ? limit : 1073741823ull) : 1073741823ll);
   o.end_obj();
@@ -277,6 +278,8 @@ static void CmdRCuts(const Json& cmd, JsonOut& o) {
       o.key("cuts");
       o.begin_arr();
       for (size_t k = 0; k < src.size(); k++) {
+        // a bursty pipe needs a feeder thread per run: only short encodings are swept through it
+        if (base.kind == "fdburst" && src.size() > 24) break;
         ReaderSpec spec = base;
         DynReader r(spec, src.data(), k);
         r.log = false;
